@@ -480,7 +480,7 @@ class Inliner:
             x = work.pop()
             t = body["blocks"][x]["term"]
             succ = []
-            for key in ("target", "otherwise", "resume", "imaginary", "drop"):
+            for key in ("target", "otherwise", "resume", "drop"):        # not "imaginary": false edges are not control flow
                 v = t.get(key)
                 if isinstance(v, int) and not (key == "drop" and t["k"] != "yield"):
                     succ.append(v)
@@ -496,6 +496,70 @@ class Inliner:
             if i not in seen and (blk["stmts"] or blk["term"]["k"] != "unreachable"):
                 blk["stmts"] = []
                 blk["term"] = {"k": "unreachable", "span": blk["term"]["span"], "blanked": True}
+
+    def _fold_const_switches(self, body):
+        """After a helper has been spliced in with a constant enum argument (`helper(Kind::A, ..)` with `match kind {..}` in
+        the helper), the match is decided: replace `switch discriminant(x)` by a goto to the arm of the variant x was built
+        with. x must have exactly one whole-local definition chain ending in an aggregate, and never be written through a
+        pointer, a projection, a call or a resume. (What rustc's own SimplifyConstCondition / jump threading does.)"""
+        nvar = {a["def"]: len(a.get("variants") or []) for a in self.d.get("adts", [])}
+        nvar.update({"std::option::Option": 2, "std::result::Result": 2})
+        defs, tainted = {}, set(range(0, body.get("arg_count", 0) + 1))
+        for blk in body["blocks"]:
+            for st in blk["stmts"]:
+                if st["k"] == "assign":
+                    pl = st["place"]
+                    if pl["p"]:
+                        if not any(e == "*" for e in pl["p"]):
+                            tainted.add(pl["l"])
+                    else:
+                        defs.setdefault(pl["l"], []).append(st["rv"])
+                    rv = st["rv"]
+                    if ("ref" in rv and rv.get("mut")) or "rawptr" in rv:
+                        src = rv.get("ref") or rv.get("rawptr")
+                        if not any(e == "*" for e in src["p"]):
+                            tainted.add(src["l"])
+            t = blk["term"]
+            if t["k"] == "call" and not t["dest"]["p"]:
+                tainted.add(t["dest"]["l"])
+            if t["k"] == "yield" and not t["resume_arg"]["p"]:
+                tainted.add(t["resume_arg"]["l"])
+
+        def variant_of(l, depth=0):
+            if l in tainted or len(defs.get(l, [])) != 1 or depth > 6:
+                return None
+            rv = defs[l][0]
+            if rv.get("agg") == "adt" and rv.get("adt") in nvar and "vidx" in rv:
+                return rv["vidx"], nvar[rv["adt"]]
+            if "use" in rv:
+                src = rv["use"].get("move") or rv["use"].get("copy")
+                if src is not None and not src["p"]:
+                    return variant_of(src["l"], depth + 1)
+            return None
+        folded = 0
+        for blk in body["blocks"]:
+            t = blk["term"]
+            if t["k"] != "switch":
+                continue
+            dl = t["discr"].get("move") or t["discr"].get("copy")
+            if dl is None or dl["p"] or dl["l"] in tainted or len(defs.get(dl["l"], [])) != 1:
+                continue
+            rv = defs[dl["l"]][0]
+            if "discr" not in rv or not isinstance(rv["discr"], dict) or rv["discr"].get("p"):
+                continue
+            v = variant_of(rv["discr"]["l"])
+            if v is None:
+                continue
+            vidx, n = v
+            if any(int(a) >= n for a, _ in t["arms"]):
+                continue        # explicit discriminant values: not the variant index
+            tgt = t["otherwise"]
+            for a, b2 in t["arms"]:
+                if int(a) == vidx:
+                    tgt = b2
+            blk["term"] = {"k": "goto", "target": tgt, "span": t["span"], "folded": True}
+            folded += 1
+        return folded
 
     # -------- driver
     def run(self):
@@ -531,6 +595,7 @@ class Inliner:
                                     touched = changed = True
                     i += 1
                 if touched:
+                    self._fold_const_switches(body)
                     self._blank_unreachable(body)
             if not changed:
                 break
